@@ -133,6 +133,16 @@ func (fc *freeCase) finish(g *gen, kind string, base int, tags []string, extra m
 	}
 	extra["subs"] = descs
 	panics := int(fc.panics.Load())
+	if leaks > 0 {
+		g.hard++
+	} else {
+		for _, c := range calls {
+			if !c.ret {
+				g.hard++
+				break
+			}
+		}
+	}
 	coq := vcoq.App("KFree", coqFin(calls, ls, panics, leaks))
 	js := jsFin(calls, ls, panics, leaks)
 	js["kind"] = kind
